@@ -374,7 +374,7 @@ def nontrivial(payload, md):
         return not md.get('m0', '0/').startswith('0/') and md.get('s0') != md.get('s1')
     return md.get('m0', '-') != '-' and 'm1' in md and md.get('s0') != md.get('s1')
 
-RULE = ('per protocol (usbpro, robe, opc, acn; acn: blocks of 0-6 PDUs with lengths 2..1000 and 4095/4096/5000/70000, 2- and 3-byte length fields, bad identifier, block length off by -1/+1/+5, length smaller than its field, truncation, noise): streams of 1-30 items drawn from valid frames with payload sizes at '
+RULE = ('per protocol (usbpro, robe, opc, acn, rpc; rpc: RpcMessage frames of all types with bodies around the 2 kB initial buffer, empty frames, wrong version, size over 1 MB, unparsable bodies, truncation; acn: blocks of 0-6 PDUs with lengths 2..1000 and 4095/4096/5000/70000, 2- and 3-byte length fields, bad identifier, block length off by -1/+1/+5, length smaller than its field, truncation, noise): streams of 1-30 items drawn from valid frames with payload sizes at '
         '0/1/limit-1/limit, wrong end byte / header CRC / data CRC, announced length limit+1..65535, truncated '
         'frames, off-by-one length fields, noise rich in start/end bytes; every stream replayed under 6 '
         'partitions (1-byte, whole, random cuts, a cut at offsets -2..+7 of every item, one single cut near a '
@@ -389,29 +389,28 @@ ASSUMPTIONS = ['the kernel delivers the bytes of a pipe/socket in order',
 TRUSTED = ['modelled rather than verified: ConnectedDescriptor::Receive (POSIX branch), '
            'BaseUsbProWidget::ReceiveMessage/DescriptorReady, BaseRobeWidget::ReceiveMessage/DescriptorReady, '
            'OPCServer::SocketReady/RxState::CheckSize, IncomingStreamTransport::Receive/ReadRequiredData/'
-           'IncreaseBufferSize/Handle*/Enter* (libs/acn/TCPTransport.cpp, with a recording inflator); the receive buffers are modelled as the list of bytes '
+           'IncreaseBufferSize/Handle*/Enter* (libs/acn/TCPTransport.cpp, with a recording inflator), RpcChannel::DescriptorReady/ReadHeader (correspondence only); the receive buffers are modelled as the list of bytes '
            'stored so far plus an explicit capacity check on every store; SOM/EOM/size limits regenerated '
            'into Gen.v',
-           'reference framers ref_usb/ref_robe/ref_opc/ref_acn are hand-written from the wire formats (their '
+           'reference framers ref_usb/ref_robe/ref_opc/ref_acn/ref_rpc are hand-written from the wire formats (their '
            'resynchronisation rules are stated in Model.v)',
            'read() interposed with ld --wrap in the harness only']
 LEVEL_TEXT = ('Coq theorems over executable models of the code: ConnectedDescriptor::Receive (any script of read() '
               'results: no store outside the buffer, count = sum of successful reads, buffer prefix = their '
-              'concatenation); Enttec USB Pro, Robe and the Open Pixel Control server: for every byte stream and EVERY '
+              'concatenation); Enttec USB Pro, Robe, the Open Pixel Control server and the ACN TCP transport '
+              '(IncomingStreamTransport incl. buffer growth and stream invalidation): for every byte stream and EVERY '
               'partition into reads the delivered message list equals a reference framer written from the wire format, '
-              'no store outside the receive buffer, the read loop terminates (c10_{usbpro,robe,opc}_chunk_free/_bounds); '
-              'for these and for ACN any interleaving of data arrivals and callback invocations of a level-triggered '
-              'poller delivers the same (c10_schedule_*). PARTIAL: for the ACN TCP transport (IncomingStreamTransport) '
-              'it is proved that every partition is hazard-free (buffer growth never stores outside the allocation, '
-              'Receive() cannot spin) and delivers the same PDU sequence / reaches the same state as one-byte-at-a-time '
-              'and all-at-once delivery (c10_acn_chunk_free_partial, c10_acn_bounds); that this sequence equals the '
-              'reference framer ref_acn (in particular where a stream is invalidated) is NOT proved, only compared on '
-              'every generated case. The RPC channel framing is not part of this check (theorem c09_dispatch in props/C09).')
+              'no store outside the receive buffer, the read loop terminates (c10_{usbpro,robe,opc,acn}_chunk_free / '
+              '_bounds); any interleaving of data arrivals and callback invocations of a level-triggered poller '
+              'delivers the same (c10_schedule_*). PARTIAL: the RPC channel has no theorem in this check (its framing '
+              'theorem is c09_dispatch in props/C09); here a model of the fixed ReadHeader/DescriptorReady and a '
+              'reference framer ref_rpc are compared with the real RpcChannel (frames dispatched by type, channel '
+              'closed or not, after every chunk) on generated streams under 6 partitions incl. one byte at a time.')
 LEVEL_NOTE = ('Trusted: Coq kernel, extraction (ExtrOcamlBasic), OCaml/C++ glue, the ld --wrap=read interposer, generator '
               'coverage of the correspondence (model = code is validated by differential testing on pipes/socket pairs '
               'under ASan/UBSan, not proved); assumes in-order byte delivery; receive buffers are modelled as the list '
               'of bytes stored so far (ACN: in reverse order with a length counter) with an explicit capacity check per '
-              'store; the ACN inflator is a recording stub that consumes every PDU whole; ACN_HEADER and INITIAL_SIZE '
+              'store; the ACN inflator is a recording stub that consumes every PDU whole; for the RPC channel the verdict of the protobuf parser on a body is an oracle supplied with each case (the generator builds the bodies it knows to be rejected) and buffer reallocation is not modelled; ACN_HEADER and INITIAL_SIZE '
               'are taken from the text of libs/acn/TCPTransport.cpp (they are not visible in a header), the other '
               'constants from the compiled headers.')
 TECHNIQUE = 'Coq proof on hand-written executable model + extracted-model/implementation differential correspondence'
